@@ -379,6 +379,8 @@ func runC18(tier string, seed int64, si, sn int, rep *monitor.Report, note func(
 		for _, to := range []time.Duration{2500 * time.Millisecond, 5 * time.Second} {
 			points = append(points, fp{kind: "never-ready", timeout: to})
 		}
+		// a ready-timeout of zero or less (what an unparsable or "0s" option amounts to): timed out at once, everything terminated
+		points = append(points, fp{kind: "never-ready:zero-timeout", timeout: 0}, fp{kind: "never-ready:negative-timeout", timeout: -30 * time.Second})
 		points = append(points, fp{kind: "never-ready+terminate-fails", timeout: 2500 * time.Millisecond, termFail: 1})
 		for k := 1; k <= batches; k++ {
 			points = append(points, fp{kind: "attach-fails", attachK: k, timeout: 30 * time.Second})
